@@ -21,6 +21,8 @@ def sh(cmd, cwd=None, timeout=900, env=None):
         r = subprocess.run(cmd, shell=True, cwd=cwd, capture_output=True, text=True, timeout=timeout, env=env, start_new_session=True)
         return r.returncode, r.stdout + r.stderr
     except subprocess.TimeoutExpired:
+        subprocess.run(["pkill", "-9", "-f", LAB + "/repo/target/debug/deps"])
+        subprocess.run(["pkill", "-9", "-f", LAB + "/sim/target/release/sim"])
         return 124, "TIMEOUT"
 
 OPS = [
